@@ -54,6 +54,7 @@ type mapEntry struct {
 type Map struct {
 	T       *types.Map
 	entries []*mapEntry
+	ver     int // bumped on every update / delete
 }
 
 // ------------ type helpers ------------
